@@ -340,6 +340,10 @@ class Engine:
                 # inherent-looking call `Type::method` can also be a trait method (e.g. Type::default())
                 pass
             out.append(n)
+        if len(out) > 1 and tyname is not None:
+            typed = [n for n in out if self.impl_info(n) is not None]
+            if typed:
+                out = typed
         if len(out) == 1:
             return out[0]
         if len(out) > 1:
@@ -1015,10 +1019,7 @@ class Engine:
             return VStruct([res, simp(ov)])
         if op == "MulWithOverflow":
             res = l * r
-            if signed:
-                ov = z3.Not(z3.And(z3.BVMulNoOverflow(l, r, True), z3.BVMulNoUnderflow(l, r)))
-            else:
-                ov = z3.Not(z3.BVMulNoOverflow(l, r, False))
+            ov = z3.Not(mul_no_overflow(l, r, signed))
             return VStruct([res, simp(ov)])
         raise SymError("unsupported integer binop " + op)
 
@@ -1355,6 +1356,16 @@ class Engine:
         if r is None:
             raise SymError("closure diverges: " + fname)
         return r
+
+
+def mul_no_overflow(l, r, signed):
+    """portable (no z3-only bvumul_noovfl): widen, multiply, compare"""
+    w = l.size()
+    if signed:
+        full = z3.SignExt(w, l) * z3.SignExt(w, r)
+        return full == z3.SignExt(w, z3.Extract(w - 1, 0, full))
+    full = z3.ZeroExt(w, l) * z3.ZeroExt(w, r)
+    return z3.Extract(2 * w - 1, w, full) == 0
 
 
 def _zip_store(arrs, vals, k):
